@@ -139,11 +139,24 @@ Proof.
   rewrite (IH H). destruct a; try discriminate; reflexivity.
 Qed.
 
-Lemma mdc_arg_single : forall what arg,
-  single arg = true -> mdc_arg what (map piece_of arg) = inl (text_of_arg arg).
+Lemma literal_pieces_plain : forall what arg,
+  plain arg = true -> literal_pieces what (map piece_of arg) = inl (text_of_arg arg).
 Proof.
-  intros what [|a [|b r]]; try discriminate; destruct a; try discriminate; intros _; cbn;
-    rewrite ?app_nil_r; reflexivity.
+  unfold text_of_arg, plain.
+  induction arg as [|a arg IH]; cbn [map flat_map forallb literal_pieces]; [reflexivity|].
+  intros H. apply andb_true_iff in H. destruct H as [Ha H].
+  destruct a as [t|c st|nm args sp]; try discriminate; cbn [piece_of literal_pieces];
+    rewrite (IH H); reflexivity.
+Qed.
+
+(* the whole literal argument counts (fixes c13258d / d5a5dce) *)
+Lemma literal_arg_plain : forall what arg,
+  plain arg = true -> is_nil arg = false ->
+  literal_arg what (map piece_of arg) = inl (text_of_arg arg).
+Proof.
+  intros what arg Hp Hn. destruct arg as [|a arg]; [discriminate|].
+  unfold literal_arg. cbn [map]. change (piece_of a :: map piece_of arg) with (map piece_of (a :: arg)).
+  apply literal_pieces_plain; exact Hp.
 Qed.
 
 (* ---------- the theorem ---------- *)
@@ -227,19 +240,22 @@ Section Meaning.
       cbn [enc_chunk enc_leaf]. rewrite Hf.
       rewrite fit_eq by (apply widths_params; exact Hw). reflexivity.
     - (* {d(fmt)(zone)} *)
-      destruct z as [|[zt| |] [|? ?]]; try discriminate.
       apply andb_true_iff in Hd. destruct Hd as [Hd Hz].
+      apply andb_true_iff in Hd. destruct Hd as [Hd Hzn].
+      apply andb_true_iff in Hd. destruct Hd as [Hd Hzp].
       apply andb_true_iff in Hd. destruct Hd as [Hp Hf].
+      apply negb_true_iff in Hzn.
       unfold compile_date. cbn [map length Nat.ltb Nat.leb].
-      rewrite (date_format_plain f Hp), Hf. cbn [negb nth_error piece_of].
+      rewrite (date_format_plain f Hp), Hf. cbn [negb nth_error].
+      rewrite (literal_arg_plain _ z Hzp Hzn).
       unfold date_value.
-      destruct (str_eqb zt (LIT "utc")) eqn:Eu.
+      destruct (str_eqb (text_of_arg z) (LIT "utc")) eqn:Eu.
       + cbn [enc_chunk enc_leaf]. rewrite Hf.
         rewrite fit_eq by (apply widths_params; exact Hw). reflexivity.
       + cbn [orb] in Hz. rewrite Hz.
         cbn [enc_chunk enc_leaf]. rewrite Hf.
         rewrite fit_eq by (apply widths_params; exact Hw). reflexivity.
-    - destruct z as [|[zt| |] [|? ?]]; discriminate.
+    - discriminate.
   Qed.
 
   Lemma mdc_case : forall nm args sp,
@@ -254,14 +270,17 @@ Section Meaning.
     rewrite Hm. clear Hm Hn.
     unfold mdc_args_ok in Hd.
     destruct args as [|k [|d [|x r]]]; try discriminate.
-    - unfold compile_mdc. cbn [map length Nat.ltb Nat.leb].
-      rewrite (mdc_arg_single _ k Hd). cbn [nth_error].
+    - apply andb_true_iff in Hd. destruct Hd as [Hk Hkn]. apply negb_true_iff in Hkn.
+      unfold compile_mdc. cbn [map length Nat.ltb Nat.leb].
+      rewrite (literal_arg_plain _ k Hk Hkn). cbn [nth_error].
       cbn [enc_chunk enc_leaf].
       rewrite fit_eq by (apply widths_params; exact Hw). reflexivity.
-    - apply andb_true_iff in Hd. destruct Hd as [Hk Hd].
+    - apply andb_true_iff in Hd. destruct Hd as [Hd Hdn]. apply negb_true_iff in Hdn.
+      apply andb_true_iff in Hd. destruct Hd as [Hd Hkn]. apply negb_true_iff in Hkn.
+      apply andb_true_iff in Hd. destruct Hd as [Hk Hdp].
       unfold compile_mdc. cbn [map length Nat.ltb Nat.leb].
-      rewrite (mdc_arg_single _ k Hk). cbn [nth_error].
-      rewrite (mdc_arg_single _ d Hd).
+      rewrite (literal_arg_plain _ k Hk Hkn). cbn [nth_error].
+      rewrite (literal_arg_plain _ d Hdp Hdn).
       cbn [enc_chunk enc_leaf].
       rewrite fit_eq by (apply widths_params; exact Hw). reflexivity.
   Qed.
